@@ -686,10 +686,11 @@ HEAP_PROPS = ("Frame", "ErrorsChangeNothing", "ResultIsOutcome", "NewHasNoPendin
               "NatSemantics")
 
 
-def heap_cfg(nvars, ws, wmax, ineg, ipos, ops, iops, props=True, view=True):
+def heap_cfg(nvars, ws, wmax, ineg, ipos, ops, iops, acts=None, props=True, view=True, det=False):
     q = lambda xs: ",".join('"%s"' % x for x in xs)      # noqa: E731
     s = ("SPECIFICATION Spec\nCONSTANTS NVars = %d\n Ws = {%s}\n WMax = %d\n INeg = %d\n IPos = %d\n Ops = {%s}\n"
-         " IOps = {%s}\n Acts = {%s}\n" % (nvars, ",".join(map(str, ws)), wmax, ineg, ipos, q(ops), q(iops), q(HEAP_ACTS)))
+         " IOps = {%s}\n Acts = {%s}\n DetOnly = %s\n" % (nvars, ",".join(map(str, ws)), wmax, ineg, ipos, q(ops),
+                                                             q(iops), q(acts or HEAP_ACTS), "TRUE" if det else "FALSE"))
     if props:
         s += "INVARIANT TypeOK\n" + "".join("PROPERTY %s\n" % p for p in HEAP_PROPS)
     if view:
@@ -741,7 +742,7 @@ def heap_call(name, a):
 
 
 def heap_text(h):
-    return ", ".join("v%d=%s" % (i + 1, show(x)) for i, x in enumerate(h) if x["w"])
+    return ", ".join("v%d=%s" % (i + 1, show(x).replace(",next=unset", "")) for i, x in enumerate(h) if x["w"])
 
 
 class HeapReal:
@@ -909,7 +910,7 @@ def heap_walk(res, fut, max_viol=6):
 
 
 def heap_sim_tlc(cfgargs, num, depth, sd):
-    return tlc.simulate_traces("BitsHeap", cfg_text=heap_cfg(*cfgargs, props=False, view=False), num=num, depth=depth,
+    return tlc.simulate_traces("BitsHeap", cfg_text=heap_cfg(*cfgargs, props=False, view=False, det=True), num=num, depth=depth,
                                sd=sd)
 
 
